@@ -61,12 +61,26 @@ def check(case, out):
         else:
             V2 = lib.KnotVector([v + lib.conv_knot(case["shift"], num) for v in V])
         out.cls("different-interval", "interval=" + str(case["shift"] if isinstance(case["shift"], str) else "shifted"))
+        fV2 = [oracle.frac(v) for v in V2]
         for name, fn in (("|", lambda: KU | V2), ("&", lambda: KU & V2), ("r|", lambda: V2 | KU), ("r&", lambda: V2 & KU)):
             try:
                 r = fn()
                 out.fail("different-interval-accepted", klass, f"{list(KU)} {name} {list(V2)} returned {list(r)}")
             except ValueError:
                 pass
+        # the in-place forms: rejected as well, and a rejected request leaves both operands as they were
+        import operator
+        for name, op, left, right, fl, fr, dl, dr in (("|=", operator.ior, KU, V2, fU, fV2, p, q), ("&=", operator.iand, KU, V2, fU, fV2, p, q),
+                                                    ("r|=", operator.ior, V2, KU, fV2, fU, q, p), ("r&=", operator.iand, V2, KU, fV2, fU, q, p)):
+            try:
+                r = op(left, right)
+                out.fail("different-interval-accepted", klass, f"{fl} {name} {fr} returned {list(r)}")
+            except ValueError:
+                pass
+            if [oracle.frac(x) for x in left] != fl or left.degree != dl or [oracle.frac(x) for x in right] != fr or right.degree != dr:
+                out.fail("rejected-request-modified-operand", klass,
+                         f"after the rejected {fl} {name} {fr}: left is {list(left)} (degree {left.degree}), right is {list(right)}")
+                return
         return
     other = V if case["raw"] else KV  # the operators also accept a plain sequence
     W = KU | other
